@@ -22,3 +22,9 @@ func VerifC20Unpack(r pullRequest) (peer.ID, uint8, common.Hash128) {
 
 // VerifC20PendingCount is the number of hashes the manager keeps a pull counter for.
 func (m *PushPullManager) VerifC20PendingCount() int { return m.pendingPushes.ItemCount() }
+
+// VerifC20Request builds an element of PushPullManager.Requests() (the harness uses it to occupy the queue the way a
+// stalled sender leaves it).
+func VerifC20Request(id peer.ID, typ uint8, hash common.Hash128) pullRequest {
+	return pullRequest{peer: id, hash: pushPullHash{Type: pushType(typ), Hash: hash}}
+}
